@@ -462,7 +462,13 @@ var builtinPrefix = []token.Type{token.IDENT, token.INT, token.FLOAT, token.STRI
 var builtinInfix = []token.Type{token.ASSIGN, token.PLUS_ASSIGN, token.MINUS_ASSIGN, token.OR, token.AND, token.EQ, token.NOT_EQ, token.LT, token.GT, token.LTE, token.GTE, token.PLUS, token.MINUS, token.MULTIPLY, token.DIVIDE, token.MODULO, token.INCREMENT, token.DECREMENT, token.LPAREN, token.DOT, token.LBRACKET}
 var builtinPostfix = []token.Type{token.INCREMENT, token.DECREMENT}
 
-var typeNames = []string{"op@", "op#", "op^", "op~", "op?", "pow"}
+// names include words the lexer already knows (keywords, operator spellings): a registered name always gets a fresh id
+var typeNames = []string{"op@", "op#", "op^", "op~", "op?", "pow", "null", "if", "function", "true", "let", "return", "+", "ident", "EOF", ""}
+
+// built-in tokens in a role they do NOT have built in: the first registration is accepted, a repeat must be refused
+var builtinFreePrefix = []token.Type{token.PLUS, token.MULTIPLY, token.DIVIDE, token.MODULO, token.LT, token.GT}
+var builtinFreeInfix = []token.Type{token.NOT, token.COLON}
+var builtinFreePostfix = []token.Type{token.NOT, token.COLON}
 var nameChar = map[string]byte{"op@": '@', "op#": '#', "op^": '^', "op~": '~', "op?": '?', "pow": '&'}
 
 func runC05History(t *fw.T) {
@@ -535,7 +541,9 @@ func runC05History(t *fw.T) {
 				}
 				got := lbReal.RegisterTokenType(name)
 				lbTwin.RegisterTokenType(name)
-				chars[nameChar[name]] = want
+				if c, ok := nameChar[name]; ok {
+					chars[c] = want
+				}
 				t.Count("registrations_checked", 1)
 				if got != want {
 					t.Violate("token-id", "sequential model", fmt.Sprintf("RegisterTokenType(%q) returned %d, model says %d after history %v", name, got, want, hist), wit())
@@ -577,6 +585,17 @@ func runC05History(t *fw.T) {
 				default:
 					pool = builtinPostfix
 				}
+				if r.IntN(3) == 0 {
+					// a role the token does not have built in (free the first time, taken afterwards)
+					switch role {
+					case "prefix":
+						pool = builtinFreePrefix
+					case "infix":
+						pool = builtinFreeInfix
+					default:
+						pool = builtinFreePostfix
+					}
+				}
 				tt = pool[r.IntN(len(pool))]
 				tokName = fmt.Sprintf("builtin:%s", tt)
 			}
@@ -613,7 +632,9 @@ func runC05History(t *fw.T) {
 					if role != "prefix" {
 						customRole[tt] = role
 					}
-					accepted = append(accepted, opReg{ch, role, lvl})
+					if ch != 0 {
+						accepted = append(accepted, opReg{ch, role, lvl})
+					}
 				}
 			} else {
 				t.Count("refused_registrations", 1)
